@@ -37,9 +37,13 @@ func goExecExtB(t []string) (string, bool) {
 	return "", false
 }
 
-// recWriter: an io.Writer whose k-th Write fails (0, ErrIO) when sink[k]; records everything
+// recWriter: an io.Writer whose k-th Write fails when sink[k]; the j-th FAILING write first
+// accepts min(part[j], len(p)) bytes — (n, ErrIO) with 0 <= n <= len(p), legal for an io.Writer
+// (default 0).  A short write WITHOUT error would violate io.Writer's contract: never produced.
+// Records everything.
 type recWriter struct {
 	sink   []bool
+	part   []int
 	k      int
 	tried  []int
 	out    bytes.Buffer
@@ -51,8 +55,16 @@ func (w *recWriter) Write(p []byte) (int, error) {
 	w.k++
 	w.tried = append(w.tried, len(p))
 	if fail {
+		n := 0
+		if w.faults < len(w.part) {
+			n = w.part[w.faults]
+		}
+		if n > len(p) {
+			n = len(p)
+		}
 		w.faults++
-		return 0, script.ErrIO
+		w.out.Write(p[:n])
+		return n, script.ErrIO
 	}
 	w.out.Write(p)
 	return len(p), nil
@@ -96,15 +108,31 @@ func dotsB(l []int) string {
 	return strings.Join(s, ".")
 }
 
-func parseSinkB(s string) []bool {
+// parseSinkB: "-" | 0/1 string, optionally "/k.k.…" (bytes accepted by the successive failing writes)
+func parseSinkB(s string) ([]bool, []int) {
+	var part []int
+	if i := strings.Index(s, "/"); i >= 0 {
+		for _, f := range strings.Split(s[i+1:], ".") {
+			part = append(part, atoi(f))
+		}
+		s = s[:i]
+	}
 	if s == "-" {
-		return nil
+		return nil, part
 	}
 	out := make([]bool, len(s))
 	for i, c := range s {
 		out[i] = c == '1'
 	}
-	return out
+	return out, part
+}
+
+// sinkBits: the 0/1 part of a sink token
+func sinkBits(s string) string {
+	if i := strings.Index(s, "/"); i >= 0 {
+		return s[:i]
+	}
+	return s
 }
 
 // senderCtor: the constructor of the request's stream kind and its randomness script
@@ -180,7 +208,8 @@ func senderCtor(t []string) (mk func(w io.Writer) (io.WriteCloser, error), src *
 
 func execSender(t []string) string {
 	mk, src, rest := senderCtor(t)
-	w := &recWriter{sink: parseSinkB(rest[0])}
+	sk, pt := parseSinkB(rest[0])
+	w := &recWriter{sink: sk, part: pt}
 	var s io.WriteCloser
 	var err error
 	var calls []string
@@ -353,7 +382,7 @@ func senderPredicate(line, ans, base string, regular bool) string {
 		}
 	}
 	f := strings.Fields(line)
-	sink := f[len(f)-2]
+	sink := sinkBits(f[len(f)-2])
 	nTried := 0
 	if tr := senderField(ans, "tried"); tr != "-" && tr != "" {
 		nTried = len(strings.Split(tr, "."))
@@ -407,6 +436,17 @@ func genSenderFaults(armored bool) func(ctx *Ctx, emit func(Case)) {
 							Sample:  map[string]interface{}{"stream": cfg.name, "underlying_writes": total, "fault_at": k, "sticky": sticky, "calls": senderField(out, "calls")},
 						})
 					}
+					// the failing write ACCEPTS A PART of its slice before failing: (0 < n <= len, err)
+					if !ctx.Quick || k%3 == round%3 {
+						sticky := r.Bool()
+						line := cfg.prefix + " " + sinkString(k, sticky, total) + partSuffix(r, sticky) + " " + ops
+						out := goExec(line)
+						base := base
+						emit(Case{Stream: "sender.fault.partial." + cfg.name, Line: line, GoOut: out,
+							Branch: fmt.Sprintf("sticky=%v/init=%s/%s", sticky, senderField(out, "init"), callShape(senderField(out, "calls"))),
+							Direct: func() string { return senderPredicate(line, out, base, regular) },
+						})
+					}
 				}
 			}
 		}
@@ -443,7 +483,7 @@ func genSenderFaults(armored bool) func(ctx *Ctx, emit func(Case)) {
 					}
 				}
 				for _, k := range ks {
-					line := cfg.prefix + " " + sinkString(k, r.Bool(), total) + " " + ops
+					line := cfg.prefix + " " + sinkString(k, r.Bool(), total) + prng.Pick(r, "", "", partSuffix(r, true)) + " " + ops
 					out := goExec(line)
 					emit(Case{Stream: "sender.fault.big." + cfg.name, Line: line, GoOut: out,
 						Branch: fmt.Sprintf("ops%d/%s", bi, callShape(senderField(out, "calls"))),
@@ -453,6 +493,20 @@ func genSenderFaults(armored bool) func(ctx *Ctx, emit func(Case)) {
 			}
 		}
 	}
+}
+
+// partSuffix: "/k.k.…" — how many bytes the successive failing writes accept (1 byte, a few,
+// more than any slice: the whole slice is taken and the write still fails)
+func partSuffix(r *prng.R, several bool) string {
+	n := 1
+	if several {
+		n = 1 + r.Intn(3)
+	}
+	var p []string
+	for i := 0; i < n; i++ {
+		p = append(p, fmt.Sprint(prng.Pick(r, 1, 1, 2, 3, 7, 20, 1000, 2000000)))
+	}
+	return "/" + strings.Join(p, ".")
 }
 
 // callShape: the outcome classes of the calls without the byte counts
